@@ -162,7 +162,21 @@ func (cw *codecWriter) write(it *Item, want []byte) *evid.Violation {
 }
 
 // readItem decodes one item with the buffer reader at want[off:] and with the stream reader.
+// retained collects the strings/binaries returned by the stream reader so that they can be re-verified
+// after later reads and a Release of the underlying buffered reader.
+type retainedVal struct {
+	s    string
+	b    []byte
+	isB  bool
+	want []byte
+	idx  int
+}
+
 func readItem(it *Item, one []byte, rest []byte, r *thrift.BufferReader) *evid.Violation {
+	return readItemKeep(it, one, rest, r, nil)
+}
+
+func readItemKeep(it *Item, one []byte, rest []byte, r *thrift.BufferReader, keep *[]retainedVal) *evid.Violation {
 	x := thrift.Binary
 	before := r.Readn()
 	var l int
@@ -205,12 +219,18 @@ func readItem(it *Item, one []byte, rest []byte, r *thrift.BufferReader) *evid.V
 		v2, err2 = r.ReadString()
 		s := string(it.str())
 		ok, ok2 = v == s, v2 == s
+		if keep != nil {
+			*keep = append(*keep, retainedVal{s: v2, want: it.str()})
+		}
 	case "binary":
 		var v, v2 []byte
 		v, l, err = x.ReadBinary(rest)
 		v2, err2 = r.ReadBinary()
 		s := it.str()
 		ok, ok2 = bytes.Equal(v, s), bytes.Equal(v2, s)
+		if keep != nil {
+			*keep = append(*keep, retainedVal{b: v2, isB: true, want: s})
+		}
 	case "field":
 		var tp, tp2 int8
 		var id, id2 int16
@@ -306,9 +326,13 @@ func checkCodec(c CodecCase, cv *cov) (v *evid.Violation) {
 		br := bufiox.NewDefaultReader(sr)
 		r := thrift.NewBufferReader(br)
 		off := 0
+		var kept []retainedVal
 		for i := range c.Items {
 			calls := sr.Calls
-			if v = readItem(&c.Items[i], ones[i], want[off:], r); v != nil {
+			if i > 0 && i%5 == 0 {
+				br.Release(nil) // values returned so far must survive a Release and further reads
+			}
+			if v = readItemKeep(&c.Items[i], ones[i], want[off:], r, &kept); v != nil {
 				v.Msg = fmt.Sprintf("item %d: %s (source plan %+v)", i, v.Msg, sr.Plan)
 				return
 			}
@@ -323,6 +347,16 @@ func checkCodec(c CodecCase, cv *cov) (v *evid.Violation) {
 		}
 		r.Recycle()
 		br.Release(nil)
+		for i := range kept {
+			got := []byte(kept[i].s)
+			if kept[i].isB {
+				got = kept[i].b
+			}
+			if !bytes.Equal(got, kept[i].want) {
+				v = evid.Failf("stream reader: string/binary value #%d (%d bytes) no longer equals the original value after later reads and Release of the reader (it was not an independent value)", i, len(kept[i].want))
+				return
+			}
+		}
 	}
 	if p, st := evid.Safe(body); p != nil {
 		return &evid.Violation{Msg: fmt.Sprintf("panic in %s: %v", where, p), Stack: st}
